@@ -521,7 +521,7 @@ class Session:
     """One observer watching u.root (spelled as requested) with a Collector; sentinel drains."""
 
     def __init__(self, u: Universe, *, recursive=True, full=False, as_bytes=False, spelling="abs", observer="inotify",
-                 delay=0.1, event_filter=None, poll_interval=0.02):
+                 delay=0.1, event_filter=None, poll_interval=0.02, follow_symlink=False):
         self.u = u
         self.recursive = recursive
         self.full = full
@@ -571,7 +571,7 @@ class Session:
         self.col.polling = observer != "inotify"
         self.exc_mark = monitors.exc_mark()
         self.watch = self.obs.schedule(self.col, self.schedule_arg if self.schedule_arg is not None else self.root_spelled,
-                                       recursive=recursive, event_filter=event_filter)
+                                       recursive=recursive, event_filter=event_filter, **({"follow_symlink": True} if follow_symlink else {}))
         self.obs.start()
         self.n_sent = 0
         self.initial = u.walk_root()
